@@ -27,9 +27,12 @@ OFFS2 = [(0, 0), (4, 0), (-4, 0), (0, 4), (0, -4), (8, 0), (3, 4), (-3, -4), (2,
 # ------------------------------------------------------------------------------------------------
 # case generation (pure: rng only)
 # ------------------------------------------------------------------------------------------------
-def gen_scene(rng, n, m, flavor="mixed", dim=None, mode=None, policy=None, fpv=None):
+def gen_scene(rng, n, m, flavor="mixed", dim=None, mode=None, policy=None, fpv=None, cheap=False):
+    if flavor == "continuous":
+        dim = "3d"
     dim = dim or ("3d" if rng.random() < 0.62 else "2d")
-    mode = mode or (rng.choice(MODES) if dim == "3d" else rng.choice(["CENTERDISTANCE", "IOU2D"]))
+    modes3 = MODES if not cheap else ["CENTERDISTANCE", "CENTERDISTANCE", "IOU2D", "IOU2D", "IOU3D", "PLANEDISTANCE"]
+    mode = mode or (rng.choice(modes3) if dim == "3d" else rng.choice(["CENTERDISTANCE", "IOU2D"]))
     policy = policy or rng.choice(POLICIES)
     fpv = (rng.random() < 0.3) if fpv is None else fpv
     family = "autoware" if dim == "3d" or rng.random() < 0.7 else "traffic_light"
@@ -58,6 +61,8 @@ def gen_scene(rng, n, m, flavor="mixed", dim=None, mode=None, policy=None, fpv=N
         if dim == "2d" and not mode.startswith("IOU"):
             tp = [4.0, 5.0, 8.0, 10.0, 0.0, 1000.0, 12.0, 2.0]
         thresholds = [rng.choice(tp) for _ in targets]
+        if flavor == "continuous":
+            thresholds = [round(rng.uniform(0.0, 1.0), 3) if mode.startswith("IOU") else round(rng.uniform(0.0, 6.0), 3) for _ in targets]
 
     def gt_label():
         r = rng.random()
@@ -79,7 +84,11 @@ def gen_scene(rng, n, m, flavor="mixed", dim=None, mode=None, policy=None, fpv=N
     spread = 2 if flavor == "contested" else rng.choice([2, 3, 5, 8])
     for _ in range(m):
         fr = rng.choice(frames)
-        if dim == "3d":
+        if flavor == "continuous":
+            gts.append({"p": [rng.uniform(-8.0, 8.0) * 8 * spread, rng.uniform(-8.0, 8.0) * 8 * spread, rng.uniform(-4.0, 4.0)],
+                        "size": [rng.uniform(0.3, 6.0), rng.uniform(0.3, 3.0), rng.uniform(0.5, 3.0)],
+                        "yaw_rad": rng.uniform(-3.2, 3.2), "label": gt_label(), "frame": fr})
+        elif dim == "3d":
             gts.append({"p": [8 * rng.randint(-spread, spread), 8 * rng.randint(-spread, spread), rng.choice([0, 0, 4])],
                         "size": list(rng.choice(SIZES3)), "yaw": rng.choice([0, 0, 0, 2, 1]), "label": gt_label(), "frame": fr})
         else:
@@ -95,7 +104,17 @@ def gen_scene(rng, n, m, flavor="mixed", dim=None, mode=None, policy=None, fpv=N
             ests.append(o)
             continue
         fr = near["frame"] if near is not None and rng.random() < 0.85 else rng.choice(frames)
-        if dim == "3d":
+        if flavor == "continuous":
+            if near is not None:
+                p = [near["p"][0] + rng.gauss(0.0, 10.0), near["p"][1] + rng.gauss(0.0, 10.0), near["p"][2] + rng.gauss(0.0, 2.0)]
+                size = [x * rng.uniform(0.7, 1.4) for x in near["size"]]
+                yaw = near["yaw_rad"] + rng.gauss(0.0, 0.3)
+            else:
+                p = [rng.uniform(-400.0, 400.0), rng.uniform(-400.0, 400.0), 0.0]
+                size = [rng.uniform(0.3, 6.0), rng.uniform(0.3, 3.0), rng.uniform(0.5, 3.0)]
+                yaw = rng.uniform(-3.2, 3.2)
+            ests.append({"p": p, "size": size, "yaw_rad": yaw, "label": est_label(near), "frame": fr})
+        elif dim == "3d":
             if near is not None:
                 dx, dy = rng.choice(OFFS3)
                 p = [near["p"][0] + dx, near["p"][1] + dy, near["p"][2] + rng.choice([0, 0, 0, 4])]
@@ -150,8 +169,24 @@ def witness_cases():
     return out
 
 
+def corpus_cases(pid):
+    """Minimised regression inputs in corpus/<pid>/*.json (one case per file), run first."""
+    import glob
+    import json
+    import os
+
+    from harness.lib.core import ROOT
+
+    out = []
+    for path in sorted(glob.glob(os.path.join(ROOT, "corpus", pid, "*.json"))):
+        with open(path) as f:
+            d = json.load(f)
+        out.append(d.get("case", d))
+    return out
+
+
 def gen_cases(tier, rng, flavor):
-    out = witness_cases()
+    out = corpus_cases("C02" if flavor == "contested" else "C01") + witness_cases()
     big = tier != "quick"
     # boundary: every combination of empty / singleton lists with every mode / policy / task
     for dim in ("3d", "2d"):
@@ -161,16 +196,23 @@ def gen_cases(tier, rng, flavor):
                     out.append(gen_scene(rng, n, m, flavor, dim=dim, mode=mode, fpv=fpv))
                 for policy in POLICIES:
                     out.append(gen_scene(rng, rng.randint(2, 5), rng.randint(1, 4), "contested", dim=dim, mode=mode, fpv=fpv, policy=policy))
-    n_small, n_mid, n_large = (760, 380, 110) if not big else (3000, 1500, 500)
+    n_small, n_mid, n_large, n_cont = (460, 230, 64, 60) if not big else (8000, 4000, 1200, 1500)
     if flavor == "contested":
-        n_small, n_mid, n_large = (820, 360, 90) if not big else (3500, 1400, 400)
-    for _ in range(n_small):
-        out.append(gen_scene(rng, rng.randint(1, 5), rng.randint(1, 5), flavor if rng.random() < 0.7 else "mixed"))
-    for _ in range(n_mid):
-        out.append(gen_scene(rng, rng.randint(3, 10), rng.randint(3, 10), flavor if rng.random() < 0.7 else "mixed"))
+        n_small, n_mid, n_large, n_cont = (480, 220, 56, 50) if not big else (8500, 3800, 1000, 1300)
     hi = 16 if not big else 24
-    for _ in range(n_large):
-        out.append(gen_scene(rng, rng.randint(8, hi), rng.randint(8, hi), flavor if rng.random() < 0.5 else "mixed"))
+    small = [gen_scene(rng, rng.randint(1, 5), rng.randint(1, 5), flavor if rng.random() < 0.7 else "mixed") for _ in range(n_small)]
+    mid = [gen_scene(rng, rng.randint(3, 10), rng.randint(3, 10), flavor if rng.random() < 0.7 else "mixed") for _ in range(n_mid)]
+    cont = [gen_scene(rng, rng.randint(1, 9), rng.randint(1, 9), "continuous") for _ in range(n_cont)]   # arbitrary floats
+    large = [gen_scene(rng, rng.randint(8, hi), rng.randint(8, hi), flavor if rng.random() < 0.5 else "mixed", cheap=True) for _ in range(n_large)]
+    # interleave the streams so that the coqc shards are balanced
+    streams = [small, mid, cont, large]
+    total = sum(len(x) for x in streams)
+    pos = [0] * len(streams)
+    for k in range(total):
+        # pick the stream that is furthest behind its share
+        best = max(range(len(streams)), key=lambda i: (len(streams[i]) - pos[i]) / max(1, len(streams[i])) if pos[i] < len(streams[i]) else -1)
+        out.append(streams[best][pos[best]])
+        pos[best] += 1
     return out
 
 
@@ -222,7 +264,8 @@ def build(case):
         if case["dim"] == "3d":
             return I["DynamicObject"](
                 unix_time=100, frame_id=fr, position=(o["p"][0] / 8.0, o["p"][1] / 8.0, o["p"][2] / 8.0),
-                orientation=I["Quaternion"](*YAWS[o["yaw"]]), shape=I["Shape"](I["ShapeType"].BOUNDING_BOX, tuple(o["size"])),
+                orientation=(I["Quaternion"](axis=[0.0, 0.0, 1.0], angle=o["yaw_rad"]) if "yaw_rad" in o else I["Quaternion"](*YAWS[o["yaw"]])),
+                shape=I["Shape"](I["ShapeType"].BOUNDING_BOX, tuple(o["size"])),
                 semantic_score=0.5, semantic_label=lab(o["label"]), velocity=(0.0, 0.0, 0.0), uuid=f"{who}{i}", pointcloud_num=10)
         return I["DynamicObject2D"](unix_time=100, frame_id=fr, semantic_score=0.5, semantic_label=lab(o["label"]),
                                     roi=tuple(o["roi"]), uuid=f"{who}{i}")
@@ -430,6 +473,8 @@ def strictly_better(maximize, a, b):
 
 
 def oracle_c01(case, obs):
+    if "__harness_exception__" in obs:
+        return f"the implementation could not be observed: {obs['__harness_exception__']}"
     if "error" in obs:
         return f"get_object_results raised {obs['error']}"
     pairs, f = obs["pairs"], obs["facts"]
@@ -603,13 +648,16 @@ class C01(Prop):
                   "better than it), outside FP validation the estimates of the result are a permutation of the input estimates, all indices "
                   "are in range, FP validation yields no result without ground truth and [] when there is no ground truth. "
                   "The model is compared with get_object_results on every generated scene (index pairs, in order), together with the model's "
-                  "is_matchable and NaN-cell tables against MatchingLabelPolicy.is_matchable / frame ids / is_better_than.")
+                  "is_matchable and NaN-cell tables against MatchingLabelPolicy.is_matchable / frame ids / is_better_than; a second "
+                  "correspondence observes PerceptionEvaluationManager.add_frame_result(...).object_results on filtered 3D scenes.")
     level_note = ("Trusted: Coq kernel+vm_compute; the hand-written model Model/Matching.v (tied by this run's correspondence); the matching "
                   "values themselves are read from the public matching classes (their geometric meaning is C06). Non-mutation of the "
                   "caller's lists is a runtime observation checked on every case, not a theorem.")
     rule = ("scenes with 0-16 estimates x 0-16 ground truths (thorough: 0-24) on the 1/8 lattice, 1-3 frame ids, 2-5 labels with duplicates, "
             "UNKNOWN / FP labels, contested GTs, exact ties, scores exactly on the radius; 4 modes x 3 policies x thresholds list|None x "
-            "3D boxes | 2D ROIs x normal | FP validation; non-trivial = >= 2 estimates, >= 1 GT and at least one pair formed")
+            "3D boxes | 2D ROIs x normal | FP validation; plus 3D scenes of 0-8 x 0-8 objects through a freshly configured "
+            "PerceptionEvaluationManager (detection / fp_validation, configured policy and max_matchable_radii); "
+            "non-trivial = >= 2 estimates, >= 1 GT and at least one pair formed (manager: at least one pair formed)")
     assumptions = ["objects carry geometry (3D boxes or 2D ROIs); the ROI-less 2D dispatch is C11",
                    "matching values are finite floats (NaN/inf values are treated as NaN cells)"]
     not_proved = ["non-mutation of the caller's lists (runtime observation on every generated case)",
@@ -619,5 +667,5 @@ class C01(Prop):
         return [MatchCorr(), ManagerCorr()]
 
 
-READY = False
+READY = True
 PROP = C01()
